@@ -235,13 +235,26 @@ impl ObservationMetric<WAttrs, WObs> for WMetric {
     }
     fn postprocess_distances(&self, unfiltered: Vec<similari::track::ObservationMetricOk<WObs>>) -> Vec<similari::track::ObservationMetricOk<WObs>> {
         if !self.plan.post_min.load(Ordering::SeqCst) {
-            return unfiltered;
+            // a metric that does not post-process: whatever the trait's DEFAULT implementation does is what applies
+            return TraitDefault.postprocess_distances(unfiltered);
         }
         let best = unfiltered.iter().filter_map(|r| r.feature_distance).fold(None, |m: Option<f32>, d| Some(m.map_or(d, |x| x.min(d))));
         match best {
             None => unfiltered,
             Some(b) => unfiltered.into_iter().filter(|r| r.feature_distance == Some(b)).collect(),
         }
+    }
+}
+
+/// carries the library's default `postprocess_distances` (it overrides nothing but the two mandatory methods)
+#[derive(Clone, Default)]
+pub struct TraitDefault;
+impl ObservationMetric<WAttrs, WObs> for TraitDefault {
+    fn metric(&self, _mq: &MetricQuery<'_, WAttrs, WObs>) -> MetricOutput<f32> {
+        None
+    }
+    fn optimize(&mut self, _feature_class: u64, _merge_history: &[u64], _attrs: &mut WAttrs, _observations: &mut Vec<Observation<WObs>>, _prev_length: usize, _is_merge: bool) -> Result<()> {
+        Ok(())
     }
 }
 
